@@ -1482,6 +1482,31 @@ func dstsToPaths(id string, as uint32, dsts []*table.Update) ([]*table.Path, []*
 	return bestList, oldList, mpathList, multipathUpdate, multipathWithdraw
 }
 
+// promoteSendMaxFiltered returns up to n paths of the destination that had been
+// held back from the ADD-PATH peer by send-max and can be advertised now that
+// as many paths were withdrawn; their held-back marks are cleared.
+func (s *BgpServer) promoteSendMaxFiltered(targetPeer *peer, destination interface {
+	GetKnownPathList(string, uint32) []*table.Path
+}, n int) []*table.Path {
+	knownPathList := destination.GetKnownPathList(targetPeer.TableID(), targetPeer.AS())
+	toAdd := make([]*table.Path, 0, n)
+	for _, p := range knownPathList {
+		if len(toAdd) >= n {
+			break
+		}
+		// If the path is filtered by policies, there is no need to send the path
+		// Otherwise, we send only paths that were previously filtered because of the max path limit
+		p := s.filterpath(targetPeer, p, nil)
+		if p == nil || !targetPeer.isPathSendMaxFiltered(p) {
+			continue
+		}
+		// We unset the flag as the path is not filtered anymore
+		targetPeer.unsetPathSendMaxFiltered(p)
+		toAdd = append(toAdd, p)
+	}
+	return toAdd
+}
+
 func (s *BgpServer) propagateUpdateToNeighbors(rib *table.TableManager, source *peer, newPath *table.Path, dsts []*table.Update, needOld bool) {
 	if table.SelectionOptions.DisableBestPathSelection {
 		return
@@ -1557,33 +1582,29 @@ func (s *BgpServer) propagateUpdateToNeighbors(rib *table.TableManager, source *
 								continue
 							}
 
-							knownPathList := destination.GetKnownPathList(targetPeer.TableID(), targetPeer.AS())
-							toAdd := make([]*table.Path, 0, len(knownPathList))
-							for _, p := range knownPathList {
-								// If the path is filtered by policies, there is no need to send the path
-								// Otherwise, we send only paths that were previously filtered because of the max path limit
-								p := s.filterpath(targetPeer, p, nil)
-								if p == nil || !targetPeer.isPathSendMaxFiltered(p) {
-									continue
-								}
-								// We unset the flag as the path is not filtered anymore
-								targetPeer.unsetPathSendMaxFiltered(p)
-								toAdd = append(toAdd, p)
-								if len(toAdd) == len(toActuallyDelete) {
-									break
-								}
-							}
-							l = append(l, toAdd...)
+							l = append(l, s.promoteSendMaxFiltered(targetPeer, destination, len(toActuallyDelete))...)
 						}
 						targetPeer.updateRoutes(l...)
 						return l
 					}()
 				} else {
 					alreadySent := targetPeer.hasPathAlreadyBeenSent(newPath)
+					replaced := newPath
 					newPath := s.filterpath(targetPeer, newPath, nil)
 					// if the path is not filtered and the path has already been sent or land in the limit, we can send it
 					if newPath == nil {
 						bestList = []*table.Path{}
+						if alreadySent {
+							// The path replaces one that was advertised under the same
+							// path identifier and cannot be advertised itself: the old
+							// version must not stay with the peer, and the slot it
+							// frees goes to a path held back by send-max.
+							bestList = append(bestList, replaced.Clone(true))
+							if destination := rib.GetDestination(replaced); destination != nil {
+								bestList = append(bestList, s.promoteSendMaxFiltered(targetPeer, destination, 1)...)
+							}
+							targetPeer.updateRoutes(bestList...)
+						}
 					} else if alreadySent || targetPeer.getRoutesCount(f, newPath.GetPrefix()) < targetPeer.getAddPathSendMax(f) {
 						bestList = []*table.Path{newPath}
 						if !alreadySent {
